@@ -34,13 +34,20 @@ Definition opp (c : cmp) : cmp := match c with CLt => CGt | CEq => CEq | CGt => 
 
 (* ---------------------------------------------------------------------------------------- *)
 (* value trees.  None in an [option obj] position is a NULL pointer member / NULL placeholder. *)
+(* the quote, dquote and escape members of a tokenizer (spif_char_t each; as bytes 0..255) *)
+Definition tokchars : Type := (Z * Z * Z)%type.
+Definition default_chars : tokchars := (39, 34, 92).       (* single quote, double quote, backslash: set by init / done *)
+Definition ch_quote (c : tokchars) : Z := fst (fst c).
+Definition ch_dquote (c : tokchars) : Z := snd (fst c).
+Definition ch_escape (c : tokchars) : Z := snd c.
+
 Inductive obj : Type :=
 | OObj (addr : Z)                                   (* spif_obj_t: only an identity *)
 | OStr (s : option text)                            (* s = NULL or a buffer holding the text *)
 | OUstr (s : option text)
 | OMbuff (b : option text)                          (* buff = NULL or a block holding the bytes *)
 | OPair (k v : option obj)
-| OTok (src sep tokens : option obj)                (* str, str, dlinked_list list of str *)
+| OTok (src sep tokens : option obj) (ch : tokchars) (* str, str, list (eval: dlinked_list of str); quote dquote escape *)
 | OUrl (s : option text) (comps : list (option obj))  (* proto user passwd host port path query *)
 | ORegexp (s : option text) (flags : Z) (data : Z)  (* data = blocks held by the compiled pattern, 0 = NULL *)
 | OCont (i : iface) (c : cls) (addr : Z) (alloc : bool) (items : list (option obj))
@@ -62,7 +69,7 @@ Fixpoint footprint (o : obj) : Z :=
   | OUstr s => 1 + optb s
   | OMbuff b => 1 + optb b
   | OPair k v => 1 + fo k + fo v
-  | OTok a b c => 1 + fo a + fo b + fo c
+  | OTok a b c _ => 1 + fo a + fo b + fo c
   | OUrl s cs => 1 + optb s + (fix go (l : list (option obj)) : Z :=
                                  match l with [] => 0 | x :: t => fo x + go t end) cs
   | ORegexp s _ d => 1 + optb s + d
@@ -88,7 +95,7 @@ Fixpoint release (o : obj) : Z :=
   | OUstr s => optb s + 1
   | OMbuff b => optb b + 1
   | OPair k v => ro k + ro v + 1
-  | OTok a b c => ro c + ro a + ro b + 1
+  | OTok a b c _ => ro c + ro a + ro b + 1
   | OUrl s cs => (fix go (l : list (option obj)) : Z :=
                     match l with [] => 0 | x :: t => ro x + go t end) cs + optb s + 1
   | ORegexp s _ d => optb s + d + 1
@@ -111,7 +118,7 @@ Definition done_state (o : obj) : obj :=
   | OUstr _ => OUstr None
   | OMbuff _ => OMbuff None
   | OPair _ _ => OPair None None
-  | OTok _ _ _ => OTok None None None
+  | OTok _ _ _ _ => OTok None None None default_chars      (* tok_done resets the three characters *)
   | OUrl _ cs => OUrl None (map (fun _ => None) cs)
   | ORegexp _ _ _ => ORegexp None 0 0
   | OCont i c a _ _ => OCont i c a false []
@@ -126,7 +133,7 @@ Fixpoint abs (o : obj) : obj :=
   match o with
   | OObj _ => OObj 0
   | OPair k v => OPair (ao k) (ao v)
-  | OTok a b c => OTok (ao a) (ao b) (ao c)
+  | OTok a b c ch => OTok (ao a) (ao b) (ao c) ch
   | OUrl s cs => OUrl s ((fix go (l : list (option obj)) : list (option obj) :=
                             match l with [] => [] | x :: t => ao x :: go t end) cs)
   | ORegexp s f _ => ORegexp s f 0
@@ -144,7 +151,7 @@ Inductive ctag : Set :=
 Definition tag_of (o : obj) : ctag :=
   match o with
   | OObj _ => TObj | OStr _ => TStr | OUstr _ => TUstr | OMbuff _ => TMbuff | OPair _ _ => TPair
-  | OTok _ _ _ => TTok | OUrl _ _ => TUrl | ORegexp _ _ _ => TRegexp
+  | OTok _ _ _ _ => TTok | OUrl _ _ => TUrl | ORegexp _ _ _ => TRegexp
   | OCont i c _ _ _ => TCont i c | OIter c _ => TIter c | ORaw => TRaw
   end.
 
@@ -187,7 +194,7 @@ Fixpoint comp (a b : obj) {struct a} : res cmp :=
   | OMbuff s, OMbuff t => Ok (bytes_cmp (text_of s) (text_of t))
   | OPair k _, OPair k2 _ => comp_null k k2
   | OPair k _, other => comp_null k (Some other)
-  | OTok s _ _, OTok t _ _ => comp_null s t
+  | OTok s _ _ _, OTok t _ _ _ => comp_null s t
   | OUrl s _, OUrl t _ => Ok (text_cmp (text_of s) (text_of t))
   | ORegexp s _ _, ORegexp t _ _ => Ok (text_cmp (text_of s) (text_of t))
   | OCont _ Arr _ _ xs, OCont _ Arr _ _ ys =>
@@ -239,8 +246,8 @@ Fixpoint relabel (o : obj) (n : Z) {struct o} : obj * Z :=
   match o with
   | OObj _ => (OObj n, n + 1)
   | OPair k v => let (k', n1) := ro k n in let (v', n2) := ro v n1 in (OPair k' v', n2)
-  | OTok a b c => let (a', n1) := ro a n in let (c', n2) := ro c n1 in let (b', n3) := ro b n2 in
-                  (OTok a' b' c', n3)
+  | OTok a b c ch => let (a', n1) := ro a n in let (c', n2) := ro c n1 in let (b', n3) := ro b n2 in
+                     (OTok a' b' c' ch, n3)
   | OUrl s cs =>
       let (cs', n1) := (fix go (l : list (option obj)) (n : Z) : list (option obj) * Z :=
                           match l with
@@ -261,7 +268,8 @@ Fixpoint relabel (o : obj) (n : Z) {struct o} : obj * Z :=
      str/ustr_dup   copies the buffer when there is one
      mbuff_dup      (repaired) copies the block when there is one
      objpair_dup    (repaired) dups each non-NULL member
-     tok_dup        (repaired) dups src, tokens, sep when non-NULL
+     tok_dup        (repaired) dups src, tokens, sep when non-NULL and copies quote, dquote, escape; the token
+                    list is COPIED (whatever it holds), never recomputed from the other members
      url_dup        (repaired) dups the text and every non-NULL component
      regexp_dup     copies text and flags and compiles (first with no flags, which is freed
                     again, then with the flags)
@@ -283,7 +291,7 @@ Fixpoint copy (o : obj) : res obj :=
   | OUstr s => Ok (OUstr s)
   | OMbuff b => Ok (OMbuff b)
   | OPair k v => k' <- co k ;; v' <- co v ;; Ok (OPair k' v')
-  | OTok a b c => a' <- co a ;; c' <- co c ;; b' <- co b ;; Ok (OTok a' b' c')
+  | OTok a b c ch => a' <- co a ;; c' <- co c ;; b' <- co b ;; Ok (OTok a' b' c' ch)
   | OUrl s cs =>
       cs' <- (fix go (l : list (option obj)) : res (list (option obj)) :=
                 match l with
@@ -317,7 +325,7 @@ Fixpoint dup_cost (o : obj) : Z :=
   | OUstr s => 1 + optb s
   | OMbuff b => 1 + optb b
   | OPair k v => 1 + dc k + dc v
-  | OTok a b c => 1 + dc a + dc c + dc b
+  | OTok a b c _ => 1 + dc a + dc c + dc b
   | OUrl s cs => 1 + optb s + (fix go (l : list (option obj)) : Z :=
                                  match l with [] => 0 | x :: t => dc x + go t end) cs
   | ORegexp s f d => 1 + optb s + compile_blocks s f
@@ -454,7 +462,7 @@ Fixpoint wf (o : obj) : bool :=
   let wo := fun (x : option obj) => match x with Some y => wf y | None => true end in
   match o with
   | OPair k v => wo k && wo v
-  | OTok a b c => wo a && wo b && wo c
+  | OTok a b c _ => wo a && wo b && wo c
   | OUrl _ cs => (fix go (l : list (option obj)) : bool :=
                     match l with [] => true | x :: t => wo x && go t end) cs
   | OCont i _ _ _ items =>
@@ -514,6 +522,13 @@ Definition hand_back (w : world) (r : option obj) (held' : list (nat * obj)) (na
   | None => (mkWorld held' (S (next w)) naddr' ledger', RNew (next w) true)
   end.
 
+(* ---- streams: what spif_{str,ustr,mbuff,tok}_new_from_fp / _from_fd are given ---- *)
+Inductive scls : Set := SStr | SUstr | SMbuff | STok.
+Inductive svia : Set := VFp | VFd.
+(* a regular (seekable) file with the stream positioned at pos; a pipe holding the content whose
+   write end is closed; a descriptor that has been closed; no stream at all (NULL FILE*, descriptor -1) *)
+Inductive skind : Set := KReg | KPipe | KClosed | KBad.
+
 Inductive op : Type :=
 (* constructors *)
 | NewObj
@@ -547,7 +562,20 @@ Inductive op : Type :=
 (* any container *)
 | ToArray (c : nat) | Iterator (c : nat)
 (* the non-allocating queries of a container, with a probe object *)
-| Query (c h : nat).
+| Query (c h : nat)
+(* tok: the three character members; the token list installed by the caller (set_tokens takes the
+   list over) or edited through the pointer spif_tok_get_tokens hands out *)
+| TokSetChar (t : nat) (which : nat) (c : Z)        (* which: 0 quote, 1 dquote, 2 escape *)
+| TokSetTokens (t : nat) (h : option nat)
+| TokListRemoveAt (t : nat) (idx : Z)               (* SPIF_LIST_REMOVE_AT(spif_tok_get_tokens(t), idx) *)
+| TokListAppend (t h : nat)                         (* SPIF_LIST_APPEND(spif_tok_get_tokens(t), obj) *)
+(* a text member changed IN PLACE through the pointer its getter hands out:
+   append_from_ptr(get_<member>(h), text); tok: 0 src, 1 sep; objpair: 0 key, 1 value; url: 0..6 *)
+| MemberAppend (h : nat) (sel : nat) (t : text)
+(* str / ustr / mbuff: set_size(get_size) and set_len(get_len) (k < 0); mbuff: set_len(k), k <= len *)
+| SetLen (h : nat) (k : Z)
+(* constructors from a FILE* / a descriptor *)
+| NewFromStream (c : scls) (v : svia) (k : skind) (content : text) (pos : Z).
 
 (* ---- helpers of step ---- *)
 Definition str_obj (t : text) : obj := OStr (Some t).            (* spif_str_new_from_ptr / _from_buff *)
@@ -587,8 +615,38 @@ Definition url_unparse (cs : list (option obj)) : res (text * list (option obj))
 (* a token: str_new_from_buff + append_char + trim; spif_str_trim (as repaired under C01) releases
    the buffer of a string that trims to nothing *)
 Definition tok_obj (t : text) : obj := match t with [] => OStr None | _ => OStr (Some t) end.
-Definition tok_tokens (src : text) (sep : option text) : list (option obj) :=
-  map (fun t => Some (tok_obj t)) (map SplitModel.trim (SplitModel.tokens sep src)).
+(* The scanner of spif_tok_eval as one left-to-right machine, with the OBJECT's quote / dquote /
+   escape members (tok.c: `*pstr == self->dquote || *pstr == self->quote`, `*pstr == self->escape`);
+   for the default members it is SplitModel.sm, the grammar property C12 ties to the C scanner
+   (Own/TokScan.v proves the equation).  intok: a token is open (its text is the head of the
+   result); q: 0 outside quotes, else the character that opened the quote.  In the order of the code:
+   - outside quotes a delimiter ends the token / is skipped between tokens (loop condition);
+   - one of the two quote members opens a quote, closes the quote it opened, or is literal inside
+     the other kind of quote;
+   - the escape member followed by a delimiter or by the closing quote of the open quote is dropped
+     and that character is literal; any other escape character (also the last one) is literal.
+   A member set to 0 never matches (the text has no NUL). *)
+Definition is_qc (ch : tokchars) (c : Z) : bool := (c =? ch_dquote ch) || (c =? ch_quote ch).
+Fixpoint smq (ch : tokchars) (d : SplitModel.dset) (intok : bool) (q : Z) (s : text) : list text :=
+  match s with
+  | [] => if intok then [[]] else []
+  | c :: t =>
+    if (q =? 0) && SplitModel.delim d c then (if intok then [] :: smq ch d false 0 t else smq ch d false 0 t)
+    else if is_qc ch c then
+      if q =? 0 then smq ch d true c t
+      else if q =? c then smq ch d true 0 t
+      else SplitModel.push c (smq ch d true q t)
+    else if c =? ch_escape ch then
+      match t with
+      | c2 :: t2 =>
+        if SplitModel.delim d c2 || (negb (q =? 0) && (q =? c2)) then SplitModel.push c2 (smq ch d true q t2)
+        else SplitModel.push c (smq ch d true q t)
+      | [] => [[c]]
+      end
+    else SplitModel.push c (smq ch d true q t)
+  end.
+Definition tok_tokens (ch : tokchars) (src : text) (sep : option text) : list (option obj) :=
+  map (fun t => Some (tok_obj t)) (map SplitModel.trim (smq ch sep false 0 src)).
 (* blocks spif_tok_eval leaves allocated: the list, and per token a node, the str and its buffer *)
 Definition tok_cost (toks : list (option obj)) : Z :=
   1 + fold_right (fun x acc => (match x with Some (OStr (Some _)) => 3 | _ => 2 end) + acc) 0 toks.
@@ -717,7 +775,7 @@ Definition fresh (w : world) (o : obj) (cost : Z) : res (world * out) :=
 
 Definition is_empty_state (o : obj) : bool :=
   match o with
-  | OObj _ | OStr None | OUstr None | OMbuff None | OPair None None | OTok None None None
+  | OObj _ | OStr None | OUstr None | OMbuff None | OPair None None | OTok None None None _
   | ORegexp None _ 0 | OCont _ _ _ false [] => true
   | OUrl None cs => forallb (fun x => match x with None => true | Some _ => false end) cs
   | _ => false
@@ -783,6 +841,57 @@ Definition query_walk (i : iface) (probe : obj) : list (option obj) -> res unit 
       go t
     end.
 
+(* append_from_ptr on a str / ustr / mbuff: nothing happens for an empty argument; otherwise REALLOC
+   (MALLOC when there was no buffer) *)
+Definition app_text (s : option text) (t : text) : option text * Z :=
+  match t with [] => (s, 0) | _ => (Some (text_of s ++ t), match s with Some _ => 0 | None => 1 end) end.
+(* the same on a member reached through its getter (NULL member, or not a text object: the
+   program's error) *)
+Definition member_app (m : option obj) (t : text) : res (option obj * Z) :=
+  match m with
+  | Some (OStr s) => let (s', d) := app_text s t in Ok (Some (OStr s'), d)
+  | Some (OUstr s) => let (s', d) := app_text s t in Ok (Some (OUstr s'), d)
+  | Some (OMbuff s) => let (s', d) := app_text s t in Ok (Some (OMbuff s'), d)
+  | _ => Fault Abort
+  end.
+
+(* what the stream constructors read.  str / ustr from a FILE*: one line (fgets until the newline, which is
+   dropped) from the current position; from a descriptor: everything from the current position (a
+   failing read ends the loop: empty string).  mbuff from a seekable file: a block of the size of the
+   WHOLE file filled from the current position - an empty file, or nothing left to read, is a failure
+   (NULL result, the block is freed again); from a pipe: everything, and an object without block when
+   there was nothing.  NULL FILE* / descriptor -1: ASSERT_RVAL, NULL result.
+   Result: None = the constructor returns NULL (and has released everything it allocated);
+   Some b = an object whose buffer is b. *)
+Fixpoint line_of (r : text) : text :=
+  match r with [] => [] | c :: t => if c =? 10 then [] else c :: line_of t end.
+Definition stream_text (c : scls) (v : svia) (k : skind) (content : text) (pos : Z) : res (option (option text)) :=
+  if (pos <? 0) || (Z.of_nat (length content) <? pos) then Fault Abort else
+  let r := skipn (Z.to_nat pos) content in
+  match k, v with
+  | KBad, _ => Ok None
+  | KClosed, VFp => Fault Abort                     (* there is no such thing as a closed FILE* to pass *)
+  | KClosed, VFd => Ok (Some (match c with SMbuff => None | _ => Some [] end))
+  | KPipe, _ =>
+    if negb (pos =? 0) then Fault Abort else
+    Ok (Some (match c, v with
+              | SMbuff, _ => (match content with [] => None | _ => Some content end)
+              | _, VFp => Some (line_of content)
+              | _, VFd => Some content
+              end))
+  | KReg, _ =>
+    Ok (match c, v with
+        | SMbuff, _ => (match content, r with [], _ | _, [] => None | _, _ => Some (Some r) end)
+        | _, VFp => Some (Some (line_of r))
+        | _, VFd => Some (Some r)
+        end)
+  end.
+Definition stream_obj (c : scls) (b : option text) : obj :=
+  match c with
+  | SStr => OStr b | SUstr => OUstr b | SMbuff => OMbuff b
+  | STok => OTok (Some (OStr b)) None None default_chars
+  end.
+
 Definition step (w : world) (o : op) : res (world * out) :=
   match o with
   (* ---- constructors: SPIF_ALLOC + init ---- *)
@@ -797,7 +906,7 @@ Definition step (w : world) (o : op) : res (world * out) :=
        || negb (match vo with Some y => storable y | None => true end) then Fault Abort else
     k' <- copy_opt pcre ko ;; v' <- copy_opt pcre vo ;;
     fresh w (OPair k' v') (1 + dc_opt pcre ko + dc_opt pcre vo)
-  | NewTok t => fresh w (OTok (opt_str t) None None) (1 + 2 * optb t)
+  | NewTok t => fresh w (OTok (opt_str t) None None default_chars) (1 + 2 * optb t)
   | NewUrl t =>
     match t with
     | None => fresh w (OUrl None none7) 1
@@ -885,27 +994,27 @@ Definition step (w : world) (o : op) : res (world * out) :=
 
   (* ---- tok ---- *)
   | TokSetSrc t h => setter w t h (fun po x => match po, x with
-                                             | OTok a b c, None => Ok (OTok None b c, a)
-                                             | OTok a b c, Some (OStr _) => Ok (OTok x b c, a)
+                                             | OTok a b c ch, None => Ok (OTok None b c ch, a)
+                                             | OTok a b c ch, Some (OStr _) => Ok (OTok x b c ch, a)
                                              | _, _ => Fault Abort end)
   | TokSetSep t h => setter w t h (fun po x => match po, x with
-                                             | OTok a b c, None => Ok (OTok a None c, b)
-                                             | OTok a b c, Some (OStr _) => Ok (OTok a x c, b)
+                                             | OTok a b c ch, None => Ok (OTok a None c ch, b)
+                                             | OTok a b c ch, Some (OStr _) => Ok (OTok a x c ch, b)
                                              | _, _ => Fault Abort end)
   | TokEval t =>
     x <- get w t ;;
     match x with
-    | OTok None b c => Ok (w, RBool false)                    (* REQUIRE_RVAL(src != NULL) *)
-    | OTok (Some (OStr s)) b c =>
+    | OTok None b c ch => Ok (w, RBool false)                 (* REQUIRE_RVAL(src != NULL) *)
+    | OTok (Some (OStr s)) b c ch =>
       (* delim = the separator's buffer; a NULL buffer (or no separator object) means whitespace *)
       sepo <- (match b with
                | None => Ok None
                | Some (OStr so) => Ok so
                | Some _ => Fault Abort
                end) ;;
-      let toks := tok_tokens (text_of s) sepo in
+      let toks := tok_tokens ch (text_of s) sepo in
       let lst := OCont IList DL (naddr w) false toks in
-      Ok (mkWorld (put t (OTok (Some (OStr s)) b (Some lst)) (held w)) (next w) (naddr w + 1)
+      Ok (mkWorld (put t (OTok (Some (OStr s)) b (Some lst) ch) (held w)) (next w) (naddr w + 1)
                   (ledger w - rel_opt c + tok_cost toks), RBool true)
     | _ => Fault Abort
     end
@@ -1041,6 +1150,113 @@ Definition step (w : world) (o : op) : res (world * out) :=
     match query_walk i po xs with
     | Ok _ => Ok (w, RUnit)
     | Fault _ => Fault Abort                 (* type confusion inside a comparison *)
+    end
+
+  (* ---- tok: character members, token list ---- *)
+  | TokSetChar t which c =>
+    (* SPIF_DEFINE_PROPERTY_FUNC_NONOBJ: a plain store; the token list is NOT recomputed *)
+    x <- get w t ;;
+    if (c <? 0) || (255 <? c) then Fault Abort else
+    match x with
+    | OTok a b l ch =>
+      match which with
+      | 0%nat => Ok (mkWorld (put t (OTok a b l (c, ch_dquote ch, ch_escape ch)) (held w)) (next w) (naddr w) (ledger w), RBool true)
+      | 1%nat => Ok (mkWorld (put t (OTok a b l (ch_quote ch, c, ch_escape ch)) (held w)) (next w) (naddr w) (ledger w), RBool true)
+      | 2%nat => Ok (mkWorld (put t (OTok a b l (ch_quote ch, ch_dquote ch, c)) (held w)) (next w) (naddr w) (ledger w), RBool true)
+      | _ => Fault Abort
+      end
+    | _ => Fault Abort
+    end
+  | TokSetTokens t h =>
+    (* spif_tok_set_tokens: DEL the previous list, store the caller's list (any list class) or NULL *)
+    setter w t h (fun po x => match po, x with
+                              | OTok a b l ch, None => Ok (OTok a b None ch, l)
+                              | OTok a b l ch, Some (OCont IList _ _ _ _) => Ok (OTok a b x ch, l)
+                              | _, _ => Fault Abort end)
+  | TokListRemoveAt t idx =>
+    (* the list spif_tok_get_tokens hands out is the tokenizer's own: remove_at on it takes the element
+       out of the tokenizer's tree (ledger as for [take]) *)
+    x <- get w t ;;
+    match x with
+    | OTok a b (Some (OCont IList k ad al xs)) ch =>
+      match in_range xs idx with
+      | None => Ok (hand_back w None (held w) (naddr w) (ledger w))
+      | Some n =>
+        let xs' := rem_nth n xs in
+        let al' := match k with Arr => if (length xs' =? 0)%nat then false else al | _ => al end in
+        let d := match k with Arr => if al && negb al' then 1 else 0 | _ => 1 end in
+        Ok (hand_back w (nth n xs None) (put t (OTok a b (Some (OCont IList k ad al' xs')) ch) (held w))
+                      (naddr w) (ledger w - d))
+      end
+    | _ => Fault Abort
+    end
+  | TokListAppend t h =>
+    x <- get w t ;;
+    if Nat.eqb t h then Fault Abort else
+    y <- get w h ;;
+    if negb (storable y) then Fault Abort else
+    match x with
+    | OTok a b (Some (OCont IList k ad al xs)) ch =>
+      let d := match k with Arr => if al then 0 else 1 | _ => 1 end in
+      Ok (mkWorld (put t (OTok a b (Some (OCont IList k ad (match k with Arr => true | _ => al end) (xs ++ [Some y]))) ch)
+                       (drop h (held w)))
+                  (next w) (naddr w) (ledger w + d), RBool true)
+    | _ => Fault Abort
+    end
+
+  (* ---- a text member changed in place through its getter ---- *)
+  | MemberAppend h sel t =>
+    x <- get w h ;;
+    match x with
+    | OTok a b l ch =>
+      match sel with
+      | 0%nat => '(a', d) <- member_app a t ;;
+                 Ok (mkWorld (put h (OTok a' b l ch) (held w)) (next w) (naddr w) (ledger w + d), RBool true)
+      | 1%nat => '(b', d) <- member_app b t ;;
+                 Ok (mkWorld (put h (OTok a b' l ch) (held w)) (next w) (naddr w) (ledger w + d), RBool true)
+      | _ => Fault Abort
+      end
+    | OPair k v =>
+      match sel with
+      | 0%nat => '(k', d) <- member_app k t ;;
+                 Ok (mkWorld (put h (OPair k' v) (held w)) (next w) (naddr w) (ledger w + d), RBool true)
+      | 1%nat => '(v', d) <- member_app v t ;;
+                 Ok (mkWorld (put h (OPair k v') (held w)) (next w) (naddr w) (ledger w + d), RBool true)
+      | _ => Fault Abort
+      end
+    | OUrl s cs =>
+      if (sel <? length cs)%nat then
+        '(m', d) <- member_app (nth_comp cs sel) t ;;
+        Ok (mkWorld (put h (OUrl s (Buf.upd cs sel m')) (held w)) (next w) (naddr w) (ledger w + d), RBool true)
+      else Fault Abort
+    | _ => Fault Abort
+    end
+
+  (* ---- len / size members ---- *)
+  | SetLen h k =>
+    x <- get w h ;;
+    if k <? 0 then
+      (* set_size(get_size()), set_len(get_len()): SPIF_DEFINE_PROPERTY_FUNC_C, plain stores *)
+      match x with
+      | OStr _ | OUstr _ | OMbuff _ => Ok (w, RBool true)
+      | _ => Fault Abort
+      end
+    else
+      (* spif_mbuff_set_len(k) with k <= len: the value is the first k bytes; the block stays *)
+      match x with
+      | OMbuff s =>
+        if Z.of_nat (length (text_of s)) <? k then Fault Abort else
+        Ok (mkWorld (put h (OMbuff (match s with Some t => Some (firstn (Z.to_nat k) t) | None => None end)) (held w))
+                    (next w) (naddr w) (ledger w), RBool true)
+      | _ => Fault Abort
+      end
+
+  (* ---- constructors from a stream ---- *)
+  | NewFromStream c v k content pos =>
+    r <- stream_text c v k content pos ;;
+    match r with
+    | None => Ok (hand_back w None (held w) (naddr w) (ledger w))      (* NULL: nothing is left allocated *)
+    | Some b => let o := stream_obj c b in fresh w o (footprint o)
     end
   end.
 
